@@ -1489,7 +1489,7 @@ class C10(ExpectSpec):
                   'bd5147e -- and an item it hands back to its caller carries the marker of a list still open there: an item whose marker is '
                   'already open continues or returns to that list, any other marker opens a child list), C10_top_level_list_closed (from the '
                   'empty stack of lists.render nothing is handed back), C10_items_well_formed, and the marker facts of the generated list table '
-                  '(13 markers, three list kinds with their tags, the allowed attachments). C10_list_independent_of_what_follows (suffix-locality of the whole list fixpoint: a list that ends before the end of the input is rendered the same whatever follows), C10_single_item_list (end to end: the document "- item" or "+ item" over the safe alphabet renders to <ul><li>item</li></ul> with the marker stack empty afterwards: marker recognised through the exact regex semantics, list opened, item loop, inline rendering, list closed), C10_two_item_list (two lines with the same marker render to one list with two items: the second line is recognised by the item loop as an item whose marker is already open and handed back to the list), C10_nested_list (a different marker opens a child list inside the item: "- a" / "+ b" renders to <ul><li>a<ul><li>b</li></ul></li></ul>; the marker of the child is pushed on top of that of the parent and popped when the child closes) -- for the dash and plus markers, items of any length over the safe alphabet. That the emitted HTML is the tree of the generator '
+                  '(13 markers, three list kinds with their tags, the allowed attachments). C10_list_independent_of_what_follows (suffix-locality of the whole list fixpoint: a list that ends before the end of the input is rendered the same whatever follows), C10_single_item_list (end to end: the document "- item" or "+ item" over the safe alphabet renders to <ul><li>item</li></ul> with the marker stack empty afterwards: marker recognised through the exact regex semantics, list opened, item loop, inline rendering, list closed), C10_two_item_list (two lines with the same marker render to one list with two items: the second line is recognised by the item loop as an item whose marker is already open and handed back to the list), C10_nested_list (a different marker opens a child list inside the item: "- a" / "+ b" renders to <ul><li>a<ul><li>b</li></ul></li></ul>; the marker of the child is pushed on top of that of the parent and popped when the child closes) -- for the dash and plus markers, items of any length over the safe alphabet. C10_list_in_quote_block (a list inside a container: the quote block holding one item renders to the list inside blockquote, the nested render being the document renderer, the marker stack empty afterwards). That the emitted HTML is the tree of the generator '
                   '(blank-line counting, one attached block, ownership of continuation lines) is decided by the list-tree oracle, the list '
                   'scenario matrix (every separator x follower x policy) and correspondence.')
     rule = ('list trees over the 13 markers, depth <= 4, mixed kinds, 1-3 text lines per item, optional attached code/quote/division/indented '
